@@ -292,6 +292,31 @@ func execBadDoc(c *Sx, env *execEnv) (*Sx, []Violation) {
 		}
 	}
 	out.Add(res)
+	// a resource the analysis cannot evaluate (a Service whose selector is not a legal label selector) next to a good
+	// Service: whether the run ends with the error or with a report must not depend on which of the two is read first
+	if base.ok && atoi(args[0].A)%3 == 0 {
+		badSvc := "apiVersion: v1\nkind: Service\nmetadata:\n  name: legacy\n  namespace: ns0\nspec:\n  selector:\n    app: \"legacy app!\"\n  ports:\n  - port: 80\n"
+		okSvc := "apiVersion: v1\nkind: Service\nmetadata:\n  name: fine\n  namespace: ns0\nspec:\n  selector:\n    app: a\n  ports:\n  - port: 80\n"
+		var outcome [2]string
+		for k, order := range [][2]string{{badSvc, okSvc}, {okSvc, badSvc}} {
+			d := caseDir(env, fmt.Sprintf("%ss%d", args[0].A, k))
+			if buildDirty(d, good, nil) != nil || os.WriteFile(filepath.Join(d, "a_svc.yaml"), []byte(order[0]), 0o644) != nil ||
+				os.WriteFile(filepath.Join(d, "z_svc.yaml"), []byte(order[1]), 0o644) != nil {
+				continue
+			}
+			var e error
+			if p := guarded("list-bad-service", func() {
+				_, _, e = connlist.NewConnlistAnalyzer(connlist.WithMuteErrsAndWarns()).ConnlistFromDirPath(d)
+			}); p != "" {
+				rep("panic", p)
+			}
+			outcome[k] = map[bool]string{true: "a report", false: "an error"}[e == nil]
+		}
+		if outcome[0] != "" && outcome[1] != "" && outcome[0] != outcome[1] {
+			rep("unevaluable-resource-reported-by-placement", fmt.Sprintf("a Service with an illegal selector read before a good Service gives %s, read after it gives %s", outcome[0], outcome[1]))
+		}
+		env.count("bad-service-placements")
+	}
 	nBad := 0
 	for _, in := range injs {
 		if in.class == "unreadable" || in.class == "malformed" {
